@@ -29,10 +29,11 @@ class FrozenContext(collections.abc.Mapping):
             raise AttributeError('{} has no attribute {}'.format(self, item))
 
     def __getstate__(self):
-        return self.__frozencontext
+        # Never a false value: pickle protocols 0 and 1 do not pass an empty state to __setstate__
+        return (self.__frozencontext,)
 
     def __setstate__(self, state):
-        self.__frozencontext = state
+        self.__frozencontext = state[0] if isinstance(state, tuple) else state
 
     def __getitem__(self, key):
         return self.__frozencontext[key]
